@@ -120,6 +120,7 @@ class World:
         self.final: dict = {}
         self._configure_net()
         self.loop.on_instant_end = self._instant_end
+        self.loop.iter_cost = float(self.knobs.get("iter_cost", 0.0))
         self.instant_hooks: list = []
 
     # -- configuration -------------------------------------------------------
